@@ -8,7 +8,9 @@ every configuration the expected integer coefficient vectors; the real code is r
 with the exact probe bath and a Hamiltonian commuting with the coupling operator,
 and every matrix element at every step is compared (tolerance 1e-9).
 """
-from harness import core, influence_engine as eng
+import numpy as np
+
+from harness import core, probes, influence_engine as eng
 
 LEVEL = "model_checking"
 
@@ -17,6 +19,9 @@ def variants(case, tier, idx):
     vs = [{"memory": "dkmax", "start": 0.0}]
     if case["K"] != eng.KNONE and idx % 3 == 0:
         vs.append({"memory": "tcut", "start": 0.5})
+    if case["K"] != eng.KNONE and idx % 3 == 1:
+        # tcut = K * dt for decimal dt (the product is not exactly representable): must still mean K steps
+        vs.append({"memory": "tcut", "dt": (0.1, 0.2, 0.3, 0.01, 0.7)[idx % 5]})
     if idx % 5 == 1:
         vs.append({"memory": "dkmax", "start": -0.75, "dt": 0.125})
     if idx % 7 == 2 and case["A"] != eng.AINF and case["N"] <= 3:
@@ -26,8 +31,54 @@ def variants(case, tier, idx):
     return vs
 
 
+def numeric_job(job):
+    """Numerical cross-check (not decided by the specification): pure dephasing with REAL spectral densities
+    (every cutoff type, T = 0 and T > 0, exponents) against the independent-boson solution obtained by an
+    independent quadrature of Phi(t) = int J(w)/w^2 [coth(w/2T)(1 - cos wt) - i(wt - sin wt)] dw."""
+    import oqupy
+    from scipy import integrate
+    cutoff_type, temp, zeta, method = job
+    alpha, wc, dt, n = 0.12, 2.0, 0.2, 4
+    o = np.array([1.0, -0.5, 0.0])
+    en = np.array([0.3, -0.2, 0.5])
+    cut = {"hard": lambda w: 1.0 * (w < wc), "exponential": lambda w: np.exp(-w / wc),
+           "gaussian": lambda w: np.exp(-(w / wc) ** 2)}[cutoff_type]
+    jw = lambda w: 2 * alpha * w ** zeta * wc ** (1 - zeta) * cut(w)
+    upper = wc if cutoff_type == "hard" else np.inf
+
+    def phi(t):
+        coth = (lambda w: 1.0 / np.tanh(w / (2 * temp))) if temp > 0 else (lambda w: 1.0)
+        re = integrate.quad(lambda w: jw(w) / w ** 2 * coth(w) * (1 - np.cos(w * t)), 0, upper, limit=400)[0]
+        im = integrate.quad(lambda w: -jw(w) / w ** 2 * (w * t - np.sin(w * t)), 0, upper, limit=400)[0]
+        return re + 1j * im
+    corr = oqupy.PowerLawSD(alpha=alpha, zeta=zeta, cutoff=wc, cutoff_type=cutoff_type, temperature=temp)
+    bath = oqupy.Bath(np.diag(o), corr)
+    params = oqupy.TempoParameters(dt=dt, epsrel=1e-10)
+    rho0 = probes.generic_rho(3, 5)
+    system = oqupy.System(np.diag(en))
+    if method == "tempo":
+        dyn = oqupy.Tempo(system, bath, params, rho0, 0.0).compute(n * dt + dt / 4, progress_type="silent")
+    else:
+        pt = oqupy.PtTempo(bath, 0.0, n * dt + dt / 4, params).get_process_tensor(progress_type="silent")
+        dyn = oqupy.compute_dynamics(system, initial_state=rho0, process_tensor=pt, progress_type="silent")
+    worst = 0.0
+    for m in range(1, n + 1):
+        ph = phi(m * dt)
+        want = np.array([[rho0[i, j] * np.exp(-1j * (en[i] - en[j]) * m * dt
+                                               - (o[i] - o[j]) ** 2 * ph.real - 1j * (o[i] ** 2 - o[j] ** 2) * ph.imag)
+                          for j in range(3)] for i in range(3)])
+        worst = max(worst, float(np.max(np.abs(dyn.states[m] - want))))
+    return [] if worst < 2e-6 else [{"what": "independent-boson", "err": worst}]
+
+
 def run(ctx):
     quick = ctx.tier == "quick"
+    njobs = [(ct, t, z, meth) for ct in ("hard", "exponential", "gaussian") for t in (0.0, 0.6)
+             for z, meth in ((1.0, "tempo"), (3.0, "pt"))]
+    for j, mm in zip(njobs, core.pmap(numeric_job, njobs)):
+        ctx.case({"numeric": {"cutoff_type": j[0], "T": j[1], "zeta": j[2], "method": j[3]}}, nontrivial=True)
+        for x in mm:
+            ctx.violation("C01:numeric:%s:%s" % (j[0], x["what"]), "%s: %s" % (j, x), {"numeric": list(j)})
     consts = {
         "MaxN": "4" if quick else "7",
         "MinN": "1",
@@ -56,12 +107,18 @@ def run(ctx):
                 "distinct by configuration+variant hash")
     ctx.exhaustive = True
     ctx.assumptions += [
-        "probe bath: CustomSD subclass with exact lattice eta_function; the numerical value of eta for real spectral densities is not covered (see DESIGN C12)",
+        "probe bath: CustomSD subclass with exact lattice eta_function; the numerical value of eta for real spectral densities is only cross-checked numerically (12 runs: 3 cutoff types x T x exponent/method against an independent quadrature, 2e-6)",
         "SVD truncation 1e-15 in probe runs",
     ]
 
 
 def replay(ctx, rep):
+    if "numeric" in rep["case"]:
+        core._init_worker()
+        ctx.case({"replay": True})
+        for x in numeric_job(tuple(rep["case"]["numeric"])):
+            ctx.violation("C01:replay:" + x["what"], str(x), rep["case"])
+        return
     job = {"case": rep["case"]["case"], "variant": rep["case"]["variant"], "seed": rep.get("seed", 0)}
     core._init_worker()
     res = eng.run_variant(job)
